@@ -50,8 +50,9 @@ class Engine(object):
         bib_filenames = [filename + bib_format.default_suffix for filename in aux_data.data]
         return self.format_from_files(
             bib_filenames,
-            style=aux_data.style,
+            style=style,
             citations=aux_data.citations,
+            bib_format=bib_format,
             output_encoding=output_encoding,
             output_filename=base_filename,
             add_output_suffix=True,
